@@ -56,6 +56,60 @@ func ruleC17R2(w *World, r *Report) {
 			}
 		}
 	}
+	if popped == nil || rest == nil {
+		// the pop in a helper: `last, stack := popStackItem(stack)` returning (stack[len-1], stack[:len-1]) of its parameter
+		for _, b := range fn.Blocks {
+			for _, in := range b.Instrs {
+				c, ok := in.(*ssa.Call)
+				if !ok {
+					continue
+				}
+				h := c.Call.StaticCallee()
+				if h == nil || h.Blocks == nil || fnPkgPath(h) != modRoot+"/ast" || h.Signature.Results().Len() != 2 || len(h.Params) != 1 || len(naturalLoops(h)) > 0 {
+					continue
+				}
+				okPop, n := true, 0
+				itemIdx := -1
+				for _, hb := range h.Blocks {
+					ret, isRet := hb.Instrs[len(hb.Instrs)-1].(*ssa.Return)
+					if !isRet {
+						continue
+					}
+					n++
+					ii := 0
+					if _, firstIsSlice := ret.Results[0].(*ssa.Slice); firstIsSlice {
+						ii = 1
+					}
+					if itemIdx >= 0 && itemIdx != ii {
+						okPop = false
+					}
+					itemIdx = ii
+					ld, isU := ret.Results[ii].(*ssa.UnOp)
+					sl, isS := ret.Results[1-ii].(*ssa.Slice)
+					if !isU || !isS {
+						okPop = false
+						continue
+					}
+					ia, isIA := ld.X.(*ssa.IndexAddr)
+					if !isIA || ia.X != ssa.Value(h.Params[0]) || !isLenMinus(ia.Index, h.Params[0], 1) || sl.X != ssa.Value(h.Params[0]) || sl.Low != nil || sl.High == nil || !isLenMinus(sl.High, h.Params[0], 1) {
+						okPop = false
+					}
+				}
+				if !okPop || n == 0 {
+					continue
+				}
+				for _, u := range referrers(c) {
+					if ex, ok := u.(*ssa.Extract); ok {
+						if ex.Index == itemIdx {
+							popped = ex
+						} else {
+							rest = ex
+						}
+					}
+				}
+			}
+		}
+	}
 	if popped != nil && rest != nil {
 		r.ok(rule, "walkMain: pop", where, "last := stack[len(stack)-1]; stack = stack[:len(stack)-1]")
 	} else {
@@ -113,71 +167,113 @@ func ruleC17R2(w *World, r *Report) {
 	}
 	okMany := false
 	manyDetail := "no VisitMany call"
+	// the push loop may live in a helper walkMain calls once (pushNodes(stack, last.nodes, v)): its parameters stand
+	// for the arguments of that call
+	bindArg := map[ssa.Value]ssa.Value{}
+	scanFns := []*ssa.Function{fn}
+	{
+		nCalls := map[*ssa.Function]int{}
+		var calls []*ssa.Call
+		for _, b := range fn.Blocks {
+			for _, in := range b.Instrs {
+				if c, ok := in.(*ssa.Call); ok {
+					if h := c.Call.StaticCallee(); h != nil && h != wi && h != fn && h.Blocks != nil && fnPkgPath(h) == modRoot+"/ast" && !c.Call.IsInvoke() {
+						nCalls[h]++
+						calls = append(calls, c)
+					}
+				}
+			}
+		}
+		for _, c := range calls {
+			h := c.Call.StaticCallee()
+			if nCalls[h] != 1 {
+				continue
+			}
+			scanFns = append(scanFns, h)
+			for i, p := range h.Params {
+				if i < len(c.Call.Args) {
+					bindArg[p] = c.Call.Args[i]
+				}
+			}
+		}
+	}
+	res := func(v ssa.Value) ssa.Value {
+		for i := 0; i < 3; i++ {
+			a, ok := bindArg[v]
+			if !ok {
+				break
+			}
+			v = a
+		}
+		return v
+	}
 	if vm != nil {
 		i1, f1, ok1 := itemField(vm.Call.Value)
 		i2, f2, ok2 := itemField(vm.Call.Args[0])
 		if ok1 && ok2 && f1 == "visitor" && f2 == "nodes" && i1 == popped && i2 == popped {
 			// the push loop
-			for _, b := range fn.Blocks {
-				for _, in := range b.Instrs {
-					al, ok := in.(*ssa.Alloc)
-					if !ok || !isNamed(al.Type(), modRoot+"/ast", "stackItem") {
-						continue
-					}
-					fs := allocFieldStores(al)
-					nv, vv := fs["node"], fs["visitor"]
-					ld, isL := isLoad(nv)
-					ic, isC := vv.(*ssa.Call)
-					if !isL || !isC {
-						manyDetail = "pushed item is not {node: nodes[i], visitor: v.Index(i)}"
-						continue
-					}
-					ia, isIA := ld.(*ssa.IndexAddr)
-					if !isIA || !ic.Call.IsInvoke() || ic.Call.Method.Name() != "Index" || ic.Call.Value != ssa.Value(vm) {
-						manyDetail = "pushed item is not {node: nodes[i], visitor: VisitMany(...).Index(i)}"
-						continue
-					}
-					src, sf, okSrc := itemField(ia.X)
-					if !okSrc || sf != "nodes" || src != popped {
-						manyDetail = "pushed element is not taken from last.nodes"
-						continue
-					}
-					if ia.Index != ic.Call.Args[0] {
-						manyDetail = "element index and Index() argument are different values: paths no longer spell the real slice index"
-						continue
-					}
-					// descending loop: i is a phi starting at len(nodes)-1, decremented by 1, tested >= 0
-					phi, isPhi := ia.Index.(*ssa.Phi)
-					if !isPhi {
-						manyDetail = "index is not a loop variable"
-						continue
-					}
-					startOK, stepOK := false, false
-					for _, e := range phi.Edges {
-						if bo, ok := e.(*ssa.BinOp); ok && bo.Op == token.SUB {
-							if k, ok := constInt(bo.Y); ok && k == 1 {
-								if bo.X == ssa.Value(phi) {
-									stepOK = true
-								} else if c, ok := bo.X.(*ssa.Call); ok && isLenCall(c) {
-									if s2, f2, ok := itemField(c.Call.Args[0]); ok && f2 == "nodes" && s2 == popped {
-										startOK = true
+			for _, sf := range scanFns {
+				for _, b := range sf.Blocks {
+					for _, in := range b.Instrs {
+						al, ok := in.(*ssa.Alloc)
+						if !ok || !isNamed(al.Type(), modRoot+"/ast", "stackItem") {
+							continue
+						}
+						fs := allocFieldStores(al)
+						nv, vv := fs["node"], fs["visitor"]
+						ld, isL := isLoad(nv)
+						ic, isC := vv.(*ssa.Call)
+						if !isL || !isC {
+							manyDetail = "pushed item is not {node: nodes[i], visitor: v.Index(i)}"
+							continue
+						}
+						ia, isIA := ld.(*ssa.IndexAddr)
+						if !isIA || !ic.Call.IsInvoke() || ic.Call.Method.Name() != "Index" || res(ic.Call.Value) != ssa.Value(vm) {
+							manyDetail = "pushed item is not {node: nodes[i], visitor: VisitMany(...).Index(i)}"
+							continue
+						}
+						src, sfld, okSrc := itemField(res(ia.X))
+						if !okSrc || sfld != "nodes" || src != popped {
+							manyDetail = "pushed element is not taken from last.nodes"
+							continue
+						}
+						if ia.Index != ic.Call.Args[0] {
+							manyDetail = "element index and Index() argument are different values: paths no longer spell the real slice index"
+							continue
+						}
+						// descending loop: i is a phi starting at len(nodes)-1, decremented by 1, tested >= 0
+						phi, isPhi := ia.Index.(*ssa.Phi)
+						if !isPhi {
+							manyDetail = "index is not a loop variable"
+							continue
+						}
+						startOK, stepOK := false, false
+						for _, e := range phi.Edges {
+							if bo, ok := e.(*ssa.BinOp); ok && bo.Op == token.SUB {
+								if k, ok := constInt(bo.Y); ok && k == 1 {
+									if bo.X == ssa.Value(phi) {
+										stepOK = true
+									} else if c, ok := bo.X.(*ssa.Call); ok && isLenCall(c) {
+										if s2, f2, ok := itemField(res(c.Call.Args[0])); ok && f2 == "nodes" && s2 == popped {
+											startOK = true
+										}
 									}
 								}
 							}
 						}
-					}
-					condOK := false
-					for _, u := range referrers(phi) {
-						if bo, ok := u.(*ssa.BinOp); ok && bo.Op == token.GEQ {
-							if k, ok := constInt(bo.Y); ok && k == 0 {
-								condOK = true
+						condOK := false
+						for _, u := range referrers(phi) {
+							if bo, ok := u.(*ssa.BinOp); ok && bo.Op == token.GEQ {
+								if k, ok := constInt(bo.Y); ok && k == 0 {
+									condOK = true
+								}
 							}
 						}
-					}
-					if startOK && stepOK && condOK {
-						okMany = true
-					} else {
-						manyDetail = fmt.Sprintf("the push loop is not `for i := len(nodes)-1; i >= 0; i--` (start=%v step=%v cond=%v): siblings would be visited out of order or skipped", startOK, stepOK, condOK)
+						if startOK && stepOK && condOK {
+							okMany = true
+						} else {
+							manyDetail = fmt.Sprintf("the push loop is not `for i := len(nodes)-1; i >= 0; i--` (start=%v step=%v cond=%v): siblings would be visited out of order or skipped", startOK, stepOK, condOK)
+						}
 					}
 				}
 			}
